@@ -138,6 +138,28 @@ func Specs(cl Clauses, thorough bool) []Spec {
 		add("pool.PeerPool", fmt.Sprintf("%s gw=%s", c.Net, c.Gateway), d+1, nd, func() explore.System { return NewPeer(cl, c) })
 	}
 
+	// --- pool.PeerPool as one node of a cluster: the local node serves subscribers it does not own
+	// (owner failed its health probes -> failover; a peer forwards; membership changes under live allocations)
+	n2, n3 := []string{"n1", "n2"}, []string{"n1", "n2", "n3"}
+	clusters := []struct {
+		c     PeerClusterCfg
+		depth int
+	}{
+		{PeerClusterCfg{Net: "10.0.0.0/29", Gateway: "10.0.0.1", Nodes: n2, Subs: subs[:3], Owners: []string{"n2", "n1", "n2"}}, d},
+		{PeerClusterCfg{Net: "10.0.0.0/30", Gateway: "10.0.0.2", Nodes: n2, Subs: subs[:2], Owners: []string{"n2", "n1"}}, d},
+		{PeerClusterCfg{Net: "10.0.0.8/30", Gateway: "10.9.0.1", Nodes: n3, Subs: subs[:3], Owners: []string{"n2", "n3", "n1"}, Membership: true}, d - 1},
+	}
+	if thorough {
+		clusters = append(clusters, struct {
+			c     PeerClusterCfg
+			depth int
+		}{PeerClusterCfg{Net: "10.0.0.5/29", Gateway: "10.9.0.1", Nodes: n3, Subs: subs, Owners: []string{"n2", "n3", "n1", "n3"}, Membership: true}, d - 2})
+	}
+	for _, x := range clusters {
+		c := x.c
+		add("pool.PeerPool", c.String(), x.depth, nd, func() explore.System { return NewPeerCluster(cl, c) })
+	}
+
 	out = append(out, storeSpecs(cl, thorough, subs, d, nd)...)
 	return out
 }
